@@ -3,6 +3,8 @@
  * judged after every action by a reference model: replaying the notifications of every active fetch must yield exactly
  * the matching elements with their latest accepted values; no spurious/duplicate notification; adds for existing
  * matches precede the fetch response; nothing after the unfetch response.  A passive peer cross-checks with get. */
+#define _GNU_SOURCE
+#include <crypt.h>
 #include <stdlib.h>
 #include <string.h>
 
@@ -43,6 +45,30 @@ static int reqid;
 static const char *last_action = "";
 static int nfillers;
 static char fillers[8][16];
+
+/* access-control mode (param acl=1): a credential file is loaded; S authenticates with fetch group g1, Q with g1+g2;
+ * path 'a' is visible to g2 only, 'ab' and 'm' to g1, 'b' to both: "visible to that peer" becomes part of the replica rule */
+static bool acl;
+enum { GR1 = 1, GR2 = 2 };
+static const unsigned PATH_GROUPS[NPATH] = {GR2, GR1, GR1 | GR2, GR1};
+static const char *const PATH_ACCESS[NPATH] = {"[\"g2\"]", "[\"g1\"]", "[\"g1\",\"g2\"]", "[\"g1\"]"};
+static const unsigned SLOT_GROUPS[NSLOT] = {0, GR1 | GR2, GR1};
+static bool visible(int slot, int pi)
+{
+	return !acl || (PATH_GROUPS[pi] & SLOT_GROUPS[slot]) != 0;
+}
+static int open_slot(int s)
+{
+	int c = jx_open(s == Q ? CL_WS : CL_RAW);
+	if (acl && s != P) {
+		jx_sendf(c, "{\"id\":\"au\",\"method\":\"authenticate\",\"params\":{\"user\":\"%s\",\"password\":\"pw\"}}", s == Q ? "both" : "one");
+		jx_settle();
+		if (!jx_is_success(jx_find_response_str(c, "au", 0))) {
+			xp_harness_error("slot %d could not authenticate", s);
+		}
+	}
+	return c;
+}
 
 static bool matches(int rule, const char *path)
 {
@@ -151,6 +177,9 @@ static void observe(struct pending *pd)
 				} else {
 					fail1("notification-unknown-event", "%s: %s", SLN[s], m->text);
 				}
+				if (!visible(s, pi)) {
+					fail1("notification-not-visible", "%s received %s for '%s' which its authenticated user may not see", SLN[s], ev->valuestring, PATHS[pi]);
+				}
 				if (!matches(f->rule, PATHS[pi])) {
 					fail1("notification-not-matching-rule", "%s received %s for '%s' which does not match its fetch rule", SLN[s], ev->valuestring, PATHS[pi]);
 				}
@@ -166,7 +195,7 @@ static void observe(struct pending *pd)
 					/* every add for an already existing match precedes the fetch's success response */
 					struct fetchst *f = &fe[s];
 					for (int i = 0; i < NPATH; i++) {
-						bool want = model[i].exists && matches(f->rule, PATHS[i]);
+						bool want = model[i].exists && matches(f->rule, PATHS[i]) && visible(s, i);
 						if (want && !f->has[i]) {
 							fail1("fetch-response-before-adds", "%s: the fetch was answered before the add for existing match '%s' arrived", SLN[s], PATHS[i]);
 						}
@@ -190,7 +219,7 @@ static void check_replicas(void)
 			continue;
 		}
 		for (int i = 0; i < NPATH; i++) {
-			bool want = model[i].exists && matches(fe[s].rule, PATHS[i]);
+			bool want = model[i].exists && matches(fe[s].rule, PATHS[i]) && visible(s, i);
 			if (want && !fe[s].has[i]) {
 				char key[120];
 				snprintf(key, sizeof(key), "replica-misses-element:%s", last_action);
@@ -199,7 +228,7 @@ static void check_replicas(void)
 			if (!want && fe[s].has[i]) {
 				char key[120];
 				snprintf(key, sizeof(key), "replica-has-stale-element:%s", last_action);
-				fail1(key, "%s's replica still contains '%s' which %s", SLN[s], PATHS[i], model[i].exists ? "does not match its fetch" : "does not exist");
+				fail1(key, "%s's replica still contains '%s' which %s", SLN[s], PATHS[i], !model[i].exists ? "does not exist" : !visible(s, i) ? "is not visible to it" : "does not match its fetch");
 			}
 			if (want && !model[i].is_method && fe[s].val[i] != model[i].value) {
 				char key[120];
@@ -334,10 +363,14 @@ static void apply(const struct action *a)
 	case A_ADDM: {
 		int p = a->arg;
 		long v = ++counter;
+		char access[80] = "";
+		if (acl) {
+			snprintf(access, sizeof(access), ",\"access\":{\"fetchGroups\":%s}", PATH_ACCESS[p]);
+		}
 		if (a->kind == A_ADDM) {
-			snprintf(req, sizeof(req), "{\"id\":%d,\"method\":\"add\",\"params\":{\"path\":\"%s\"}}", pd.id, PATHS[p]);
+			snprintf(req, sizeof(req), "{\"id\":%d,\"method\":\"add\",\"params\":{\"path\":\"%s\"%s}}", pd.id, PATHS[p], access);
 		} else {
-			snprintf(req, sizeof(req), "{\"id\":%d,\"method\":\"add\",\"params\":{\"path\":\"%s\",\"value\":%ld}}", pd.id, PATHS[p], v);
+			snprintf(req, sizeof(req), "{\"id\":%d,\"method\":\"add\",\"params\":{\"path\":\"%s\",\"value\":%ld%s}}", pd.id, PATHS[p], v, access);
 		}
 		pd.expect_success = model[p].exists ? 0 : 2;
 		send_request(s, req, 1);
@@ -432,8 +465,8 @@ static void apply(const struct action *a)
 		observe(NULL);
 		break;
 	case A_CONN:
-		conn[s] = jx_open(s == Q ? CL_WS : CL_RAW);
-		seen[s] = 0;
+		conn[s] = open_slot(s);
+		seen[s] = clients[conn[s]].nmsgs; /* the answer to the authenticate of the access-control mode is not part of the protocol under test */
 		memset(&fe[s], 0, sizeof(fe[s]));
 		observe(NULL);
 		break;
@@ -491,11 +524,25 @@ static void run(void)
 	int seedstate = (int)xp_param("seedstate", 0);
 	build_actions();
 	struct sim_opts o = {0};
+	acl = xp_param("acl", 0) != 0;
+	static char pwfile[900];
+	if (acl) {
+		const char *h = crypt("pw", "$1$abcdefgh$");
+		snprintf(pwfile, sizeof(pwfile),
+		         "{\"users\":{\"one\":{\"password\":\"%s\",\"auth\":{\"fetchGroups\":[\"g1\"],\"setGroups\":[],\"callGroups\":[]}},"
+		         "\"both\":{\"password\":\"%s\",\"auth\":{\"fetchGroups\":[\"g1\",\"g2\"],\"setGroups\":[],\"callGroups\":[]}}}}",
+		         h, h);
+		o.passwd_file = pwfile;
+	}
 	jx_boot(&o);
 	G = jx_open(CL_RAW);
+	if (acl) {
+		jx_sendf(G, "{\"id\":\"au\",\"method\":\"authenticate\",\"params\":{\"user\":\"both\",\"password\":\"pw\"}}");
+		jx_settle();
+	}
 	for (int s = 0; s < NSLOT; s++) {
-		conn[s] = jx_open(s == Q ? CL_WS : CL_RAW);
-		seen[s] = 0;
+		conn[s] = open_slot(s);
+		seen[s] = clients[conn[s]].nmsgs;
 	}
 	last_action = "seed";
 	if (seedstate == 1) {
@@ -582,6 +629,6 @@ const struct driver drv_c01 = {
     .name = "c01",
     .property = "C01",
     .run = run,
-    .rule = "every sequence of actions up to the depth bound over 36 actions {add state a/ab/b and method m, remove, change by two owners (raw, websocket); fetch id 1 with rule none / startsWith a / equals b and unfetch by two subscribers; disconnect and connect of the three slots}, from 6 start states (empty; two elements + fetch-all; two elements + two fetch-all subscribers in either subscription order; method + rule fetch; path-index neighbourhood filled with colliding filler paths so that insertion is refused in the tiny variant); deviation: the request frame split at its midpoint with / without a would-block; oracle after every action: per-fetch replica == reference set with latest accepted values, notification discipline, adds before the fetch response, silence after unfetch, get == model; non-trivial = executions that ran to full depth",
+    .rule = "every sequence of actions up to the depth bound over 36 actions {add state a/ab/b and method m, remove, change by two owners (raw, websocket); fetch id 1 with rule none / startsWith a / equals b and unfetch by two subscribers; disconnect and connect of the three slots}, with and without access control (credential file: subscriber S sees fetch group g1 only, Q sees g1+g2; path a is visible to g2 only), from 6 start states (empty; two elements + fetch-all; two elements + two fetch-all subscribers in either subscription order; method + rule fetch; path-index neighbourhood filled with colliding filler paths so that insertion is refused in the tiny variant); deviation: the request frame split at its midpoint with / without a would-block; oracle after every action: per-fetch replica == reference set with latest accepted values, notification discipline, adds before the fetch response, silence after unfetch, get == model; non-trivial = executions that ran to full depth",
     .assumptions = "values are integers from a running counter|a refusal with the internal-error code is accepted for an add of a free path (configured limit) and must leave every replica unchanged",
 };
